@@ -271,8 +271,12 @@ theorem parseIfd0_np (tb : Tables) (r : R) (t : Tag) : NP (parseIfd0 tb r t) := 
       cases hit <;> rfl
     · np_chain
 
-theorem parseTag_np (tb : Tables) (r : R) (t : Tag) : NP (parseTag tb r t) := by
-  delta parseTag
+theorem parseTag0_np (tb : Tables) (r : R) (t : Tag) : NP (parseTag0 tb r t) := by
+  delta parseTag0
   exact np_ite _ _ _ (parseIfd0_np tb r t) (np_ite _ _ _ (parseExifIfd_np r t) (np_ite _ _ _ (parseGpsIfd_np r t) rfl))
+
+theorem parseTag_np (tb : Tables) (r : R) (t : Tag) : NP (parseTag tb r t) := by
+  unfold parseTag
+  exact np_bind' _ _ (parseTag0_np tb r t) (fun _ => rfl)
 
 end Imeta.Exif
